@@ -353,6 +353,9 @@ func checkC14(ctx *Ctx) *Result {
 	}
 	r.check(bad == "", "R14.4", funcName(ia), p.Pos(ia.Pos()), bad, len(ps))
 	r.sample(map[string]any{"check_segments": len(paths), "element_steps": nSteps, "window_bound": maxLenKey(maxLen)})
+	// IndexAfter binary-searches the set: its elements must be kept sorted
+	r.rule("R1.10", "binary-searched slices (here: SortedSet.elems) are sorted whenever they are written", 1)
+	sortedDiscipline(ctx, r, "R1.10")
 	return r
 }
 
